@@ -225,6 +225,9 @@ func runC19(w *mon.W) {
 			w.Add("oligos_with_reverse_complementary_arms", 1)
 		}
 		s = randCase(r, s, []float64{0, 0.5, 1}[r.Intn(3)])
+		if r.Intn(5) == 0 {
+			s = caseEdges(r, s)
+		}
 		rc := func(lo, hi float64) []float64 {
 			a := lo * math.Pow(hi/lo, r.Float64())
 			return []float64{a, a * (1.01 + r.Float64()*5)}
